@@ -47,7 +47,7 @@ def main():
     out = json.load(open(rp)) if os.path.exists(rp) else {}
     with cf.ThreadPoolExecutor(4) as ex:
         for name, res in ex.map(run, paths):
-            out[name] = res
+            out.setdefault(name, {}).update(res)
             alarms = [k for k, v in res.items() if isinstance(v, int) and v != 0]
             print(name, res.get("suite"), "ALARMS:" if alarms else "silent", alarms, flush=True)
             json.dump(out, open(VERIF + "/seeded/neutral/RESULTS.json", "w"), indent=1, sort_keys=True)
